@@ -190,3 +190,55 @@ def ok_grouping_with_lookup(modules: set[str]) -> dict[str, set[str]]:
             known = groups[top] = set()
         known.add(module)
     return groups
+
+
+class Walker:
+    """A helper that looks a derived name up in a set, records it and reports whether it was new ("test and set")."""
+
+    def __init__(self, root: Path) -> None:
+        self._root = root
+        self._names: list[str] = []
+        self._known: set[str] = set()
+
+    def _name_of(self, path: Path) -> str:
+        relative = path.relative_to(self._root)
+        if str(relative) == ".":
+            return self._root.name
+        return ".".join(relative.with_suffix("").parts)
+
+    def _register(self, name: str) -> bool:
+        if name in self._known:
+            return False
+        self._known.add(name)
+        self._names.append(name)
+        return True
+
+    def bad_test_and_set_helper_decides(self) -> list[Path]:
+        # `pkg/foo.py` and `pkg/foo/` have the same name: whichever the listing yields first is parsed, the other one dropped
+        pending = [self._root]
+        parsed = []
+        while pending:
+            path = pending.pop()
+            if path.is_dir():
+                if not self._register(self._name_of(path)):
+                    continue
+                pending.extend(path.iterdir())
+            else:
+                name = self._name_of(path)
+                if self._register(name):
+                    parsed.append(path)
+        return parsed
+
+    def ok_test_and_set_helper_only_lists_names(self) -> list[Path]:
+        # every name is listed once, but nothing else depends on whether it was new
+        pending = [self._root]
+        parsed = []
+        while pending:
+            path = pending.pop()
+            if path.is_dir():
+                self._register(self._name_of(path))
+                pending.extend(path.iterdir())
+            else:
+                self._register(self._name_of(path))
+                parsed.append(path)
+        return parsed
